@@ -27,6 +27,27 @@ class FreeMachine(M.Machine):
         return super().run(buf, phase)
 
 
+def _svars(p, acc=None):
+    """set variable ids occurring (anywhere) in p"""
+    acc = set() if acc is None else acc
+    t = p[0]
+    if t == 's': acc.add(p[1])
+    elif t in ('i', 'a'): _svars(p[1], acc); _svars(p[2], acc)
+    elif t in ('E', 'M'): _svars(p[2], acc)
+    elif t in ('es', 'ss'): _svars(p[2], acc); _svars(p[3], acc)
+    return acc
+
+
+def _binders(p, eb=None, sb=None):
+    eb = set() if eb is None else eb; sb = set() if sb is None else sb
+    t = p[0]
+    if t == 'E': eb.add(p[1]); _binders(p[2], eb, sb)
+    elif t == 'M': sb.add(p[1]); _binders(p[2], eb, sb)
+    elif t in ('i', 'a'): _binders(p[1], eb, sb); _binders(p[2], eb, sb)
+    elif t in ('es', 'ss'): _binders(p[2], eb, sb); _binders(p[3], eb, sb)
+    return eb, sb
+
+
 def inst_stream(proof_bytes, pairs):
     """Instantiate `proof_bytes` (pushes one meta-term) with [(id, pattern)...]: first id <-> topmost plug."""
     out = b''.join(M.emit(p) for _, p in reversed(pairs))
@@ -139,6 +160,16 @@ class Builder:
         if not t or t[0] != 'T' or len(self.m.memory) >= 250: return
         plug = self.pattern(2)
         x = self.draw(st.sampled_from(self.cfg.ids))
+        # bias towards the interesting region: substitute a set variable that occurs, by a plug mentioning a variable
+        # that some binder of the theorem binds (capture is only possible there)
+        occ = sorted(_svars(t[1]))
+        if occ and self.draw(st.integers(0, 9)) < 7:
+            x = self.draw(st.sampled_from(occ))
+        eb, sb = _binders(t[1])
+        if (eb or sb) and self.draw(st.booleans()):
+            cands = [R.E(v) for v in sorted(eb)] + [R.S(v) for v in sorted(sb)]
+            v = self.draw(st.sampled_from(cands))
+            plug = v if self.draw(st.booleans()) else R.I(v, self.pattern(1))
         idx = self.save_pop()
         if idx is None: return
         ok = self.emit(M.emit(plug) + bytes([29, idx, 24, x]), 'Substitution')
